@@ -328,15 +328,23 @@ Lemma thm_cap_decision_invariant :
   (forall (sg pi : N -> N), inj sg -> inj pi ->
    forall (host host' : hostg) (pat : molg), same_graph (relabel pi host) host' ->
      C06_Model.lenN (enum_all host' (relabel sg pat)) = C06_Model.lenN (enum_all host pat)) /\
+  (forall (sg pi : N -> N), inj sg -> inj pi ->
+   forall (host host'' : hostg) (pat pat'' : molg),
+     same_graph (relabel pi host) host'' -> same_graph (relabel sg pat) pat'' ->
+     gwf (host_c06 (relabel pi host)) -> gwf (pat_c06 (relabel sg pat)) -> gwf (host_c06 host'') -> gwf (pat_c06 pat'') ->
+     C06_Model.lenN (enum_all host'' pat'') = C06_Model.lenN (enum_all host pat)) /\
   (forall (TH : Thr) (sg pi : N -> N), inj sg -> inj pi ->
-   forall (host host' : hostg) (pat : molg), same_graph (relabel pi host) host' ->
+   forall (host host'' : hostg) (pat pat'' : molg),
+     same_graph (relabel pi host) host'' -> same_graph (relabel sg pat) pat'' ->
+     gwf (host_c06 (relabel pi host)) -> gwf (pat_c06 (relabel sg pat)) -> gwf (host_c06 host'') -> gwf (pat_c06 pat'') ->
      (thr_val < C06_Model.lenN (enum_all host pat))%N ->
-     matches 0%N host pat = [] /\ matches 0%N host' (relabel sg pat) = []).
+     matches 0%N host pat = [] /\ matches 0%N host'' pat'' = []).
 Proof.
   split; [intros host host' pat HS; symmetry; apply enum_all_count_host_order; exact HS|].
   split; [intros sg pi Hs Hp host host' pat HS; apply (capped_invariant sg pi); assumption|].
-  intros TH sg pi Hs Hp host host' pat HS Hlt. rewrite !all_or_nothing_all.
-  rewrite (capped_invariant sg pi Hs Hp host host' pat HS). apply N.ltb_lt in Hlt. rewrite Hlt. split; reflexivity.
+  split; [intros sg pi Hs Hp host host' pat pat' HS PS G1 G2 G3 G4; apply (capped_invariant_any sg pi); assumption|].
+  intros TH sg pi Hs Hp host host' pat pat' HS PS G1 G2 G3 G4 Hlt. rewrite !all_or_nothing_all.
+  rewrite (capped_invariant_any sg pi Hs Hp host host' pat pat' HS PS G1 G2 G3 G4). apply N.ltb_lt in Hlt. rewrite Hlt. split; reflexivity.
 Qed.
 
 Lemma thm_comp_subset_capped_refuted :
